@@ -9,11 +9,17 @@ in place after each history.  `with config.set(...)` blocks are real `with` stat
 """
 from __future__ import annotations
 
+import collections
+import contextlib
 import copy
+import io
 import itertools
 import json
 import os
 import pathlib
+import subprocess
+import sys
+import types
 from collections.abc import Mapping
 
 import numpy as np
@@ -35,7 +41,9 @@ RULE = (
     "A history is non-trivial when a write to a key whose name has two spellings is followed by a read of that key "
     "through the other spelling, or by a refresh; a case is non-trivial when it contains such a history; "
     "distinct = (start state, sequence of operation kinds); histories are also counted individually "
-    "(coverage.histories, coverage.distinct_nontrivial_histories)"
+    "(coverage.histories, coverage.distinct_nontrivial_histories); plus wide / deep mapping histories (thousands of sibling keys, "
+    "100+ levels), neutral public calls after every operation of every other random history, QUANTEM_* environment variables set "
+    "around refreshes, Mapping types for set, and fresh-interpreter cases that locate user files through QUANTEM_CONFIG / HOME"
 )
 ASSUMPTIONS = [
     "QUANTEM_CONFIG is the worker's private directory (under ctx.tmp, empty at start and after every history; no environment variable is changed); histories write user configuration files (*.yaml, *.yml, *.json: partial nested sections, both key spellings, block and flow style, several files, empty / comment-only / null / {} files) into it and call refresh() (reads that directory), refresh(path=<dir as str or Path>), refresh(path=<one file>) and refresh(path=<missing>)",
@@ -46,10 +54,14 @@ ASSUMPTIONS = [
     "inside a with-block no operation writes below a namespace that the block itself created (the block is closed first); restoring removes the topmost path component that did not exist",
     "a set call that contains a rejected device among other keys may or may not have applied the other keys (only the device is judged); such calls are not used as context managers",
     "the key 'device' is only used at top level (update() validates it at any depth)",
+    "QUANTEM_* environment variables (incl. QUANTEM_DEVICE=cuda:7) are set around 30% of the random refreshes and restored: they are not a configuration source (collect_env is not used by refresh), so they must not change the result; QUANTEM_CONFIG / HOME are exercised in fresh interpreters (import_env cases) whose store after import and after refresh() must equal library defaults + user files",
+    "neutral calls (get with default / override_with, repr, deepcopy, merge, collect, collect_yaml, validate_device('cpu'), get_device, canonical_name, empty set / with / update_defaults, update of the store with a merged copy of itself, setting a leaf to the value get returns, write / yaml dump) are made after every operation of every other random history and must not change what get returns",
+    "set accepts any Mapping (dict, OrderedDict, MappingProxyType are generated); update_defaults needs a mutable mapping on the unchanged tree (it assigns into it), so only dicts are passed there",
+    "wide / deep cases: 3000..20000 sibling keys with alternating spellings through set, update_defaults, with-blocks, user files and refresh; nesting depth 120..180 (far below the interpreter recursion limit that bounds the recursive update on the unchanged tree)",
 ]
 BUDGET = {"quick": {"soft_s": 100}, "thorough": {"soft_s": 700}}
 MIN_EVALUATIONS = {"quick": 500, "thorough": 1500}
-REQUIRED_COUNTERS = ["eval:get_vs_model", "eval:refresh_vs_defaults", "eval:refresh_vs_defaults_and_user_files", "eval:with_protocol", "eval:with_restore", "eval:device_rejected_unchanged", "eval:spelling_single_entry"]
+REQUIRED_COUNTERS = ["eval:neutral_call_changed_state", "eval:user_directory_from_environment", "eval:get_vs_model", "eval:refresh_vs_defaults", "eval:refresh_vs_defaults_and_user_files", "eval:with_protocol", "eval:with_restore", "eval:device_rejected_unchanged", "eval:spelling_single_entry"]
 EXHAUSTIVE = {"quick": False, "thorough": False}  # bounded-exhaustive part + random part
 
 STORES = ["private", "seeded", "global"]
@@ -118,6 +130,13 @@ def plan(tier, seed):
     nrand, per = (360, 10) if tier == "quick" else (12000, 40)
     for r in range(nrand):
         specs.append({"kind": "rand", "store": STORES[r % 3], "n": per, "len": 20})
+    q = tier == "quick"
+    for j, fam in enumerate(["wide_set", "wide_defaults_files", "deep"]):
+        for r in range(2 if q else 12):
+            store = ["private", "global"][r % 2]
+            specs.append({"kind": "wide_deep", "store": store, "family": fam, "width": [3000, 20000][r % 2] if q else int(2000 + 4000 * r), "depth": [120, 180][r % 2] if q else 60 + 10 * r, "neutral": bool(r % 2)})
+    for r in range(2 if q else 6):
+        specs.append({"kind": "import_env", "store": "fresh_interpreter", "how": ["QUANTEM_CONFIG", "HOME"][r % 2], "rep": r})
     # interleave so that every worker sees all kinds early (soft budget cuts the tail, not a kind)
     rng = np.random.default_rng([seed, 19, 7])
     order = rng.permutation(len(specs))
@@ -272,6 +291,7 @@ class Runner:
         self.nontrivial = False
         self.wrote_spelled = False  # some write used a key that has two spellings
         self.nops = 0
+        self.neutral = None  # numpy Generator: make a state-neutral public call after every operation
         self.userdir = st["userdir"]
         self.files = {}  # user configuration files currently on disk: name -> mapping (or None for an empty file)
 
@@ -370,7 +390,13 @@ class Runner:
         items = list({k: (self._dev(v) if k == "device" else cp(v)) for k, v in op["items"]}.items())  # a mapping: a repeated key keeps its first position and its last value
         if op["form"] == "kw":
             return items, None, dict(items)
-        return items, dict(items), {}
+        arg = dict(items)
+        mt = op.get("mapping_type")
+        if mt == "ordered":
+            arg = collections.OrderedDict(items)
+        elif mt == "proxy":
+            arg = types.MappingProxyType(arg)
+        return items, arg, {}
 
     def _model_items(self, op, items):
         return [(k.replace("__", ".") if op["form"] == "kw" else k, v) for k, v in items]
@@ -524,7 +550,19 @@ class Runner:
             kw["path"] = os.path.join(self.userdir, "no-such-dir")
             used = []
         self.model.refresh(used)
-        self.C.refresh(**kw)
+        env = op.get("env") or {}
+        saved = {k: os.environ.get(k) for k in env}
+        try:
+            os.environ.update(env)  # QUANTEM_* variables are not a configuration source: refresh must ignore them
+            self.C.refresh(**kw)
+        finally:
+            for k, v in saved.items():
+                if v is None:
+                    os.environ.pop(k, None)
+                else:
+                    os.environ[k] = v
+        if env:
+            self.ctx.count("refresh_with_env_vars")
         if any(m for _, m in used):
             self.ctx.count("refresh_with_user_files")
             self.compare("refresh_vs_defaults_and_user_files", phase=":" + how)
@@ -637,7 +675,64 @@ class Runner:
                 self.op_device(op)
             else:
                 raise HarnessError("unknown op %r" % (op,))
+            if self.neutral is not None:
+                what = self._neutral_call()
+                self.kinds.append("neutral:" + what)
+                self.compare("neutral_call_changed_state", phase=":" + what)
         return "eof"
+
+    def _neutral_call(self):
+        """one public call that reads, copies or rewrites-with-itself: it must not change what get returns"""
+        C, rng, kc = self.C, self.neutral, self.kw_c
+        s = self.schema
+        c = int(rng.integers(12))
+        if c == 0:
+            C.get(s["NS1"] + "." + s["N1L"][int(rng.integers(2))], "dflt", **kc)
+            return "get_default"
+        if c == 1:
+            C.get("anything", override_with=5, **kc)
+            return "get_override_with"
+        if c == 2:
+            repr(self.cfg), str(self.dfl), copy.deepcopy(self.cfg)
+            return "repr_deepcopy"
+        if c == 3:
+            C.merge(self.cfg), C.merge(*self.dfl) if self.dfl else None
+            return "merge"
+        if c == 4:
+            C.collect(), C.collect(path=self.userdir), list(C.collect_yaml(pathlib.Path(self.userdir)))
+            return "collect"
+        if c == 5:
+            C.validate_device("cpu")
+            if self.store == "global":
+                C.get_device(), C.device()
+            return "validate_cpu"
+        if c == 6:
+            C.canonical_name(s["L1"][int(rng.integers(2))], self.cfg)
+            return "canonical_name"
+        if c == 7:
+            C.set({}, **kc), C.set(**kc)
+            with C.set({}, **kc):
+                pass
+            return "empty_set"
+        if c == 8:
+            C.update({}, self.cfg), C.update(self.cfg, C.merge(self.cfg))  # the store merged with a copy of itself
+            return "update_with_itself"
+        if c == 9:
+            C.update_defaults({}, **self.kw_cd)
+            return "empty_update_defaults"
+        if c == 10:
+            # output fed back as input: a leaf is set to the value get returns for it
+            for key in (s["L1"][int(rng.integers(2))], s["NS1"] + "." + s["N1P"], "device"):
+                v = self.real_get(key)
+                if v is not MISSING and not isinstance(v, Mapping):
+                    C.set({key: v}, **kc)
+            return "set_to_own_value"
+        if self.store == "global":
+            with contextlib.redirect_stdout(io.StringIO()):
+                C.write(os.path.join(self.ctx.tmp, "written-config.yaml"))
+            return "write"
+        yaml.safe_dump(copy.deepcopy(self.cfg))
+        return "dump"
 
     def _with(self, op, depth):
         ctx, C, m = self.ctx, self.C, self.model
@@ -827,7 +922,10 @@ def _rand_ops(rng, store, n):
                 items = list({a: [a, b] for a, b in items}.values())
             else:
                 items = [[leaf_key(), value()] for _ in range(k)]
-            ops.append({"op": "set", "form": form, "items": items})
+            op = {"op": "set", "form": form, "items": items}
+            if form == "map" and rng.random() < 0.25:
+                op["mapping_type"] = ["ordered", "proxy"][int(rng.integers(2))]
+            ops.append(op)
         elif c < 0.36:
             ns = sp(s["NS2"])
             ops.append({"op": "set", "form": "map", "nested": True, "items": [[ns, {sp(s["N2L"]): value(), sp(s["N2S"]): {sp(s["N2SL"]): value()}}]]})
@@ -836,6 +934,8 @@ def _rand_ops(rng, store, n):
         elif c < 0.60:
             how = ["default", "default", "path_dir", "path_file", "path_missing"][int(rng.integers(5))] if files else ["default", "path_dir", "path_missing"][int(rng.integers(3))]
             op = {"op": "refresh", "how": how}
+            if rng.random() < 0.3:
+                op["env"] = {"QUANTEM_" + s["L1"][U].upper(): "99", "QUANTEM_" + s["NS1"].upper() + "__" + s["N1P"].upper(): "env", "QUANTEM_DEVICE": "cuda:7", "QUANTEM_VERBOSE": "7"}
             if how == "path_file":
                 op["name"] = FILES[int(rng.integers(len(FILES)))]
             if how == "path_dir":
@@ -875,9 +975,10 @@ def _rand_ops(rng, store, n):
 # ------------------------------------------------------------------------------------------------
 
 
-def _run_history(ctx, store, prologue, ops, tag):
+def _run_history(ctx, store, prologue, ops, tag, neutral=None):
     st = ctx.state
     r = Runner(ctx, store, tag)
+    r.neutral = neutral
     try:
         ok = r.run(list(prologue) + list(ops))
     finally:
@@ -897,7 +998,133 @@ def _run_history(ctx, store, prologue, ops, tag):
     return ok, r
 
 
+def _wide_deep_ops(spec, rng):
+    """mappings far wider / deeper than the schema: thousands of sibling keys in both spellings, 100+ levels"""
+    W, D = spec["width"], spec["depth"]
+    fam = spec["family"]
+    name = lambda i: ("k%d-x" if i % 2 else "k%d_x") % i  # noqa: E731
+    other = lambda i: ("k%d_x" if i % 2 else "k%d-x") % i  # noqa: E731
+    deep = ".".join(("lvl-%d" if i % 2 else "lvl_%d") % i for i in range(D))
+    deep_alt = ".".join(("lvl_%d" if i % 2 else "lvl-%d") % i for i in range(D))
+    if fam == "wide_set":
+        return [
+            {"op": "ud", "new": {"wide": {name(i): i for i in range(0, W, 2)}}},
+            {"op": "set", "form": "map", "items": [["wide." + other(i), -i] for i in range(1, W, 3)]},
+            {"op": "set", "form": "map", "items": [[other(i), i] for i in range(W)]},
+            {"op": "with", "form": "map", "items": [[name(i), "tmp"] for i in range(0, W, 5)] + [["fresh." + name(i), i] for i in range(0, W, 7)]},
+            {"op": "get", "key": name(W // 2)},
+            {"op": "end"},
+            {"op": "refresh"},
+        ]
+    if fam == "wide_defaults_files":
+        return [
+            {"op": "ud", "new": {name(i): i for i in range(W)}},
+            {"op": "ud", "new": {other(i): i + 1 for i in range(0, W, 2)}},
+            {"op": "file", "name": "10-wide.yaml", "content": {"wide": {other(i): "f" for i in range(0, W, 4)}, **{other(i): "file" for i in range(1, W, 9)}}},
+            {"op": "ud", "new": {"wide": {name(i): i for i in range(W)}}},
+            {"op": "refresh"},
+            {"op": "set", "form": "map", "items": [["wide." + name(i), None] for i in range(0, W, 3)]},
+            {"op": "refresh", "how": "path_missing"},
+        ]
+    if fam == "deep":
+        nested = cur = {}
+        for i in range(D):
+            cur[("lvl_%d" if i % 3 else "lvl-%d") % i] = {}
+            cur = cur[("lvl_%d" if i % 3 else "lvl-%d") % i]
+        cur["leaf-x"] = 1
+        return [
+            {"op": "set", "form": "map", "items": [[deep + ".leaf_x", 0]]},
+            {"op": "get", "key": deep_alt + ".leaf-x"},
+            {"op": "ud", "new": nested},
+            {"op": "with", "form": "map", "items": [[deep_alt + ".leaf-x", 2], [deep + ".other", 3]]},
+            {"op": "set", "form": "kw", "items": [[deep_alt.replace("-", "_").replace(".", "__") + "__third", 4]]},
+            {"op": "end"},
+            {"op": "file", "name": "10-deep.json", "content": nested},
+            {"op": "refresh"},
+            {"op": "set", "form": "map", "items": [[deep_alt + ".leaf_x", 5]]},
+        ]
+    raise HarnessError("unknown family %r" % fam)
+
+
+_IMPORT_SCRIPT = """
+import json, sys
+from quantem.core import config as C
+out = {"after_import": C.config, "path": str(C.PATH)}
+C.set({"viz.cmap": "temporary", "verbose": 0})
+C.refresh()
+out["after_refresh"] = C.config
+print("@@" + json.dumps(out))
+"""
+
+
+def run_import_env(spec, idx, ctx):
+    """the user configuration directory is found through the environment (QUANTEM_CONFIG, or ~/.config/quantem) at import
+    time: a fresh interpreter must start with defaults + user files (nested merge), and refresh() must give the same"""
+    st = ctx.state
+    C = st["C"]
+    rng = ctx.rng(idx)
+    root = os.path.join(ctx.tmp, "import-env-%d" % idx)
+    home = os.path.join(root, "home")
+    how = spec["how"]
+    d = os.path.join(root, "cfgdir") if how == "QUANTEM_CONFIG" else os.path.join(home, ".config", "quantem")
+    os.makedirs(d, exist_ok=True)
+    os.makedirs(home, exist_ok=True)
+    f1 = {"viz": {"cmap": ["hot", "plasma"][int(rng.integers(2))], "real-space-units": "nm"}, "mkl": {"threads": int(rng.integers(3, 9))}, "dtype-real": "float64"}
+    f2 = {"viz": {"colors": {"extra": ["#000000"]}}, "site": {"name": "lab-%d" % int(rng.integers(100))}, "cupy": {"fft_cache_size": "1 MB"}}
+    with open(os.path.join(d, "10-user.yaml"), "w") as f:
+        yaml.safe_dump(f1, f)
+    with open(os.path.join(d, "20-site.json"), "w") as f:
+        json.dump(f2, f)
+    open(os.path.join(d, "00-empty.yml"), "w").close()
+    env = dict(os.environ)
+    env["HOME"] = home
+    env.pop("QUANTEM_CONFIG", None)
+    if how == "QUANTEM_CONFIG":
+        env["QUANTEM_CONFIG"] = d
+    env["QUANTEM_VERBOSE"] = "7"  # not a configuration source
+    p = subprocess.run([sys.executable, "-c", _IMPORT_SCRIPT], env=env, capture_output=True, text=True, timeout=600, cwd=root)
+    line = [ln for ln in p.stdout.splitlines() if ln.startswith("@@")]
+    if p.returncode != 0 or not line:
+        ctx.viol("import_with_user_files_failed", "fresh interpreter with %s -> rc %s: %s" % (how, p.returncode, p.stderr[-600:]), how=how)
+        return
+    out = json.loads(line[0][2:])
+    # expectation from the model: library defaults (this worker's pristine snapshot), user files layered on top
+    m = ConfigModel({}, st["snap"][1], st["rule"])
+    m.refresh([("10-user.yaml", f1), ("20-site.json", f2)])
+    f = {"store": "fresh_interpreter", "how": how}
+    ctx.check(os.path.realpath(out["path"]) == os.path.realpath(d), "user_directory_from_environment", "config.PATH = %r, expected %r" % (out["path"], d), **f)
+    for phase in ("after_import", "after_refresh"):
+        ok = same(out[phase], m.cfg)
+        diff = "" if ok else _first_diff(out[phase], m.cfg)
+        ctx.check(ok, "refresh_vs_defaults_and_user_files", lambda: "fresh interpreter (%s) %s: store differs from defaults + user files at %r: %r vs model %r" % (how, phase, diff, _dig(out[phase], diff), m.get(diff) if diff else None), phase=":" + phase, last_op="import" if phase == "after_import" else "refresh", spelling_mixed=True, key_depth=len(diff.split(".")), **f)
+        dup = _dup_spelling(out[phase])
+        ctx.check(dup is None, "spelling_single_entry", "both spellings stored side by side after %s: %r" % (phase, dup), phase=":" + phase, last_op="import", **f)
+    ctx.count("histories")
+    ctx.nontrivial(("import_env", how), True)
+    ctx.observe(how=how, files=[f1, f2], path=out["path"])
+
+
+def _dig(d, dotted):
+    for k in dotted.split(".") if dotted else []:
+        if not isinstance(d, dict):
+            return MISSING
+        alt = [x for x in d if norm_key(x) == norm_key(k)]
+        if not alt:
+            return MISSING
+        d = d[alt[0]]
+    return d
+
+
 def run_case(spec, idx, ctx):
+    if spec["kind"] == "import_env":
+        return run_import_env(spec, idx, ctx)
+    if spec["kind"] == "wide_deep":
+        rng = ctx.rng(idx)
+        ops = _wide_deep_ops(spec, rng)
+        ok, r = _run_history(ctx, spec["store"], [], ops, "wide_deep:%s:%s" % (spec["store"], spec["family"]), neutral=rng if spec.get("neutral") else None)
+        ctx.observe(store=spec["store"], family=spec["family"], width=spec["width"], depth=spec["depth"], kinds=r.kinds, store_leaves=_count_leaves(r.model.cfg))
+        ctx.nontrivial(("wide_deep", spec["store"], spec["family"], spec["width"], spec["depth"]), r.nontrivial)
+        return
     st = ctx.state
     store = spec["store"]
     sch = SCHEMAS[store]
@@ -925,7 +1152,7 @@ def run_case(spec, idx, ctx):
         sample = None
         for h in range(spec["n"]):
             ops = _rand_ops(rng, store, spec["len"])
-            ok, r = _run_history(ctx, store, prologue, ops, "rand:%s:case%d:h%d" % (store, idx, h))
+            ok, r = _run_history(ctx, store, prologue, ops, "rand:%s:case%d:h%d" % (store, idx, h), neutral=ctx.rng(idx, 1 + h) if h % 2 else None)
             nontriv += bool(r.nontrivial)
             if sample is None:
                 sample = ops
@@ -937,6 +1164,10 @@ def run_case(spec, idx, ctx):
     st["evidence_extra"]["distinct_nontrivial_histories"] = len(st["hist_sigs"])
 
 
+def _count_leaves(d):
+    return sum(_count_leaves(v) if isinstance(v, dict) else 1 for v in d.values())
+
+
 def summarize(all_cases, counters, extras):
     out = {
         "histories": int(counters.get("histories", 0)),
@@ -946,6 +1177,7 @@ def summarize(all_cases, counters, extras):
         "histories_left_domain": int(counters.get("history_left_domain", 0)),
         "user_files_written": int(counters.get("user_files_written", 0)),
         "refreshes_with_user_files": int(counters.get("refresh_with_user_files", 0)),
+        "refreshes_with_quantem_env_vars_set": int(counters.get("refresh_with_env_vars", 0)),
     }
     if extras:
         out["device_availability"] = extras[0].get("device_availability")
